@@ -137,7 +137,7 @@ package flows
 //@   requires forall(k, 0, len(claims), claims[k].GlobalIndex != nil && claims[k].Amount != nil && 0 <= bigval(claims[k].Amount) && bigval(claims[k].Amount) < 115792089237316195423570985008687907853269984665640564039457584007913129639936)
 //@   modifies nothing
 //@   ensures[error-means-nothing] result1 != nil ==> result0 == nil
-//@   ensures[one-per-claim] result1 == nil ==> len(result0) == len(claims)
+//@   ensures[one-per-claim] result1 == nil ==> len(result0) == len(claims) && off(result0) == 0
 //@   ensures[same-order-fields] result1 == nil ==> forall(k, 0, len(claims), result0[k] != nil && result0[k].BridgeExit != nil && result0[k].BridgeExit.TokenInfo != nil && result0[k].GlobalIndex != nil && result0[k].BridgeExit.LeafType == ite(claims[k].IsMessage, 1, 0) && result0[k].BridgeExit.TokenInfo.OriginNetwork == claims[k].OriginNetwork && result0[k].BridgeExit.TokenInfo.OriginTokenAddress == claims[k].OriginAddress && result0[k].BridgeExit.DestinationNetwork == claims[k].DestinationNetwork && result0[k].BridgeExit.DestinationAddress == claims[k].DestinationAddress && result0[k].BridgeExit.Amount == claims[k].Amount)
 //@   ensures[global-index] result1 == nil ==> forall(k, 0, len(claims), absInt(bigval(claims[k].GlobalIndex)) < 4722366482869645213696 ==> result0[k].GlobalIndex.MainnetFlag == (absInt(bigval(claims[k].GlobalIndex)) >= 18446744073709551616) && result0[k].GlobalIndex.RollupIndex == (absInt(bigval(claims[k].GlobalIndex)) / 4294967296) % 4294967296 && result0[k].GlobalIndex.LeafIndex == absInt(bigval(claims[k].GlobalIndex)) % 4294967296)
 //@   ensures[mainnet-claim] result1 == nil ==> forall(k, 0, len(claims), result0[k].GlobalIndex.MainnetFlag ==> typeIs(result0[k].ClaimData, *agglayertypes.ClaimFromMainnnet) && cast(result0[k].ClaimData, *agglayertypes.ClaimFromMainnnet).L1Leaf != nil && cast(result0[k].ClaimData, *agglayertypes.ClaimFromMainnnet).L1Leaf.Inner != nil && cast(result0[k].ClaimData, *agglayertypes.ClaimFromMainnnet).ProofLeafMER != nil && cast(result0[k].ClaimData, *agglayertypes.ClaimFromMainnnet).ProofGERToL1Root != nil && cast(result0[k].ClaimData, *agglayertypes.ClaimFromMainnnet).L1Leaf.L1InfoTreeIndex == gerLeafIndex(claims[k].GlobalExitRoot) && cast(result0[k].ClaimData, *agglayertypes.ClaimFromMainnnet).L1Leaf.MainnetExitRoot == claims[k].MainnetExitRoot && cast(result0[k].ClaimData, *agglayertypes.ClaimFromMainnnet).L1Leaf.RollupExitRoot == claims[k].RollupExitRoot && cast(result0[k].ClaimData, *agglayertypes.ClaimFromMainnnet).L1Leaf.Inner.GlobalExitRoot == claims[k].GlobalExitRoot && cast(result0[k].ClaimData, *agglayertypes.ClaimFromMainnnet).L1Leaf.Inner.Timestamp == gerLeafTimestamp(claims[k].GlobalExitRoot) && cast(result0[k].ClaimData, *agglayertypes.ClaimFromMainnnet).L1Leaf.Inner.BlockHash == gerLeafPrevBlockHash(claims[k].GlobalExitRoot) && cast(result0[k].ClaimData, *agglayertypes.ClaimFromMainnnet).ProofLeafMER.Root == claims[k].MainnetExitRoot && cast(result0[k].ClaimData, *agglayertypes.ClaimFromMainnnet).ProofLeafMER.Proof == claims[k].ProofLocalExitRoot && cast(result0[k].ClaimData, *agglayertypes.ClaimFromMainnnet).ProofGERToL1Root.Root == rootFromWhichToProve && cast(result0[k].ClaimData, *agglayertypes.ClaimFromMainnnet).ProofGERToL1Root.Proof == gerProofTo(claims[k].GlobalExitRoot, rootFromWhichToProve))
@@ -147,3 +147,25 @@ package flows
 //@   loop 0 invariant forall(k, 0, rangeindex + 1, absInt(bigval(claims[k].GlobalIndex)) < 4722366482869645213696 ==> importedBridgeExits[k].GlobalIndex.MainnetFlag == (absInt(bigval(claims[k].GlobalIndex)) >= 18446744073709551616) && importedBridgeExits[k].GlobalIndex.RollupIndex == (absInt(bigval(claims[k].GlobalIndex)) / 4294967296) % 4294967296 && importedBridgeExits[k].GlobalIndex.LeafIndex == absInt(bigval(claims[k].GlobalIndex)) % 4294967296)
 //@   loop 0 invariant forall(k, 0, rangeindex + 1, importedBridgeExits[k].GlobalIndex.MainnetFlag ==> typeIs(importedBridgeExits[k].ClaimData, *agglayertypes.ClaimFromMainnnet) && cast(importedBridgeExits[k].ClaimData, *agglayertypes.ClaimFromMainnnet).L1Leaf != nil && cast(importedBridgeExits[k].ClaimData, *agglayertypes.ClaimFromMainnnet).L1Leaf.Inner != nil && cast(importedBridgeExits[k].ClaimData, *agglayertypes.ClaimFromMainnnet).ProofLeafMER != nil && cast(importedBridgeExits[k].ClaimData, *agglayertypes.ClaimFromMainnnet).ProofGERToL1Root != nil && cast(importedBridgeExits[k].ClaimData, *agglayertypes.ClaimFromMainnnet).L1Leaf.L1InfoTreeIndex == gerLeafIndex(claims[k].GlobalExitRoot) && cast(importedBridgeExits[k].ClaimData, *agglayertypes.ClaimFromMainnnet).L1Leaf.MainnetExitRoot == claims[k].MainnetExitRoot && cast(importedBridgeExits[k].ClaimData, *agglayertypes.ClaimFromMainnnet).L1Leaf.RollupExitRoot == claims[k].RollupExitRoot && cast(importedBridgeExits[k].ClaimData, *agglayertypes.ClaimFromMainnnet).L1Leaf.Inner.GlobalExitRoot == claims[k].GlobalExitRoot && cast(importedBridgeExits[k].ClaimData, *agglayertypes.ClaimFromMainnnet).L1Leaf.Inner.Timestamp == gerLeafTimestamp(claims[k].GlobalExitRoot) && cast(importedBridgeExits[k].ClaimData, *agglayertypes.ClaimFromMainnnet).L1Leaf.Inner.BlockHash == gerLeafPrevBlockHash(claims[k].GlobalExitRoot) && cast(importedBridgeExits[k].ClaimData, *agglayertypes.ClaimFromMainnnet).ProofLeafMER.Root == claims[k].MainnetExitRoot && cast(importedBridgeExits[k].ClaimData, *agglayertypes.ClaimFromMainnnet).ProofLeafMER.Proof == claims[k].ProofLocalExitRoot && cast(importedBridgeExits[k].ClaimData, *agglayertypes.ClaimFromMainnnet).ProofGERToL1Root.Root == rootFromWhichToProve && cast(importedBridgeExits[k].ClaimData, *agglayertypes.ClaimFromMainnnet).ProofGERToL1Root.Proof == gerProofTo(claims[k].GlobalExitRoot, rootFromWhichToProve))
 //@   loop 0 invariant forall(k, 0, rangeindex + 1, !importedBridgeExits[k].GlobalIndex.MainnetFlag ==> typeIs(importedBridgeExits[k].ClaimData, *agglayertypes.ClaimFromRollup) && cast(importedBridgeExits[k].ClaimData, *agglayertypes.ClaimFromRollup).L1Leaf != nil && cast(importedBridgeExits[k].ClaimData, *agglayertypes.ClaimFromRollup).L1Leaf.Inner != nil && cast(importedBridgeExits[k].ClaimData, *agglayertypes.ClaimFromRollup).ProofLeafLER != nil && cast(importedBridgeExits[k].ClaimData, *agglayertypes.ClaimFromRollup).ProofLERToRER != nil && cast(importedBridgeExits[k].ClaimData, *agglayertypes.ClaimFromRollup).ProofGERToL1Root != nil && cast(importedBridgeExits[k].ClaimData, *agglayertypes.ClaimFromRollup).L1Leaf.L1InfoTreeIndex == gerLeafIndex(claims[k].GlobalExitRoot) && cast(importedBridgeExits[k].ClaimData, *agglayertypes.ClaimFromRollup).L1Leaf.MainnetExitRoot == claims[k].MainnetExitRoot && cast(importedBridgeExits[k].ClaimData, *agglayertypes.ClaimFromRollup).L1Leaf.RollupExitRoot == claims[k].RollupExitRoot && cast(importedBridgeExits[k].ClaimData, *agglayertypes.ClaimFromRollup).L1Leaf.Inner.GlobalExitRoot == claims[k].GlobalExitRoot && cast(importedBridgeExits[k].ClaimData, *agglayertypes.ClaimFromRollup).L1Leaf.Inner.Timestamp == gerLeafTimestamp(claims[k].GlobalExitRoot) && cast(importedBridgeExits[k].ClaimData, *agglayertypes.ClaimFromRollup).L1Leaf.Inner.BlockHash == gerLeafPrevBlockHash(claims[k].GlobalExitRoot) && cast(importedBridgeExits[k].ClaimData, *agglayertypes.ClaimFromRollup).ProofLeafLER.Proof == claims[k].ProofLocalExitRoot && cast(importedBridgeExits[k].ClaimData, *agglayertypes.ClaimFromRollup).ProofLERToRER.Root == claims[k].RollupExitRoot && cast(importedBridgeExits[k].ClaimData, *agglayertypes.ClaimFromRollup).ProofLERToRER.Proof == claims[k].ProofRollupExitRoot && cast(importedBridgeExits[k].ClaimData, *agglayertypes.ClaimFromRollup).ProofGERToL1Root.Root == rootFromWhichToProve && cast(importedBridgeExits[k].ClaimData, *agglayertypes.ClaimFromRollup).ProofGERToL1Root.Proof == gerProofTo(claims[k].GlobalExitRoot, rootFromWhichToProve))
+
+// ---- the certificate as built (C03, C02): every part comes from the contracted helper for it, wired to the right
+// field; nothing is stored or sent here
+//@ func (f *baseFlow) BuildCertificate
+//@   props C03 C02
+//@   requires f != nil && f.log != nil && f.l1InfoTreeDataQuerier != nil && f.l2BridgeQuerier != nil && f.lerQuerier != nil && f.storage != nil && certParams != nil
+//@   requires lastSentCertificate != nil ==> lastSentCertificate.Height < 18446744073709551615
+//@   requires forall(k, 0, len(certParams.Claims), certParams.Claims[k].GlobalIndex != nil && certParams.Claims[k].Amount != nil && 0 <= bigval(certParams.Claims[k].Amount) && bigval(certParams.Claims[k].Amount) < 115792089237316195423570985008687907853269984665640564039457584007913129639936)
+//@   modifies nothing
+//@   ensures[error-means-nothing] result1 != nil ==> result0 == nil
+//@   ensures[empty-refused] (!allowEmptyCert && len(certParams.Bridges) == 0 && len(certParams.Claims) == 0) ==> result1 != nil
+//@   ensures[fresh] result1 == nil ==> result0 != nil && fresh(result0)
+//@   ensures[height-first] (result1 == nil && lastSentCertificate == nil) ==> result0.Height == 0
+//@   ensures[height-after-settled] (result1 == nil && lastSentCertificate != nil && lastSentCertificate.Status == agglayertypes.Settled) ==> result0.Height == lastSentCertificate.Height + 1 && result0.PrevLocalExitRoot == lastSentCertificate.NewLocalExitRoot
+//@   ensures[height-replacing] (result1 == nil && lastSentCertificate != nil && lastSentCertificate.Status == agglayertypes.InError) ==> result0.Height == lastSentCertificate.Height && (lastSentCertificate.PreviousLocalExitRoot != nil ==> result0.PrevLocalExitRoot == *lastSentCertificate.PreviousLocalExitRoot)
+//@   ensures[undecided-refused] (lastSentCertificate != nil && lastSentCertificate.Status != agglayertypes.Settled && lastSentCertificate.Status != agglayertypes.InError) ==> result1 != nil
+//@   ensures[no-bridges-keeps-root] (result1 == nil && len(certParams.Bridges) == 0) ==> result0.NewLocalExitRoot == result0.PrevLocalExitRoot
+//@   ensures[root-after-last-bridge] (result1 == nil && len(certParams.Bridges) > 0) ==> result0.NewLocalExitRoot == exitRootAt[certParams.Bridges[len(certParams.Bridges) - 1].DepositCount]
+//@   ensures[exits] result1 == nil ==> len(result0.BridgeExits) == len(certParams.Bridges) && forall(k, 0, len(certParams.Bridges), result0.BridgeExits[k] != nil && result0.BridgeExits[k].TokenInfo != nil && result0.BridgeExits[k].LeafType == certParams.Bridges[k].LeafType && result0.BridgeExits[k].TokenInfo.OriginNetwork == certParams.Bridges[k].OriginNetwork && result0.BridgeExits[k].TokenInfo.OriginTokenAddress == certParams.Bridges[k].OriginAddress && result0.BridgeExits[k].DestinationNetwork == certParams.Bridges[k].DestinationNetwork && result0.BridgeExits[k].DestinationAddress == certParams.Bridges[k].DestinationAddress && result0.BridgeExits[k].Amount == certParams.Bridges[k].Amount)
+//@   ensures[imported-exits] result1 == nil ==> len(result0.ImportedBridgeExits) == len(certParams.Claims) && forall(k, 0, len(certParams.Claims), result0.ImportedBridgeExits[k] != nil && result0.ImportedBridgeExits[k].BridgeExit != nil && result0.ImportedBridgeExits[k].BridgeExit.TokenInfo != nil && result0.ImportedBridgeExits[k].BridgeExit.LeafType == ite(certParams.Claims[k].IsMessage, 1, 0) && result0.ImportedBridgeExits[k].BridgeExit.TokenInfo.OriginNetwork == certParams.Claims[k].OriginNetwork && result0.ImportedBridgeExits[k].BridgeExit.TokenInfo.OriginTokenAddress == certParams.Claims[k].OriginAddress && result0.ImportedBridgeExits[k].BridgeExit.DestinationNetwork == certParams.Claims[k].DestinationNetwork && result0.ImportedBridgeExits[k].BridgeExit.DestinationAddress == certParams.Claims[k].DestinationAddress && result0.ImportedBridgeExits[k].BridgeExit.Amount == certParams.Claims[k].Amount)
+//@   ensures[metadata-encodes-range] result1 == nil ==> hb(result0.Metadata)[0] == 2 && beVal(hb(result0.Metadata), 1, 8) == certParams.FromBlock && beVal(hb(result0.Metadata), 9, 4) == (certParams.ToBlock - certParams.FromBlock + 18446744073709551616) % 4294967296 && beVal(hb(result0.Metadata), 13, 4) == certParams.CreatedAt && hb(result0.Metadata)[17] == certParams.CertificateType
+//@   ensures[leaf-count] result1 == nil ==> result0.L1InfoTreeLeafCount == certParams.L1InfoTreeLeafCount
